@@ -56,6 +56,11 @@ def stages(tier, seed, bins):
             dseed=rnd.randrange(1 << 30), perp="%.6g" % perp, srand=rnd.randrange(1 << 30), nc=3, gap=6,
             map=rnd.choice(["init", "unit", "unit", "spread", "clustered"]), td=rnd.choice([2, 2, 2, 1, 3]),
             mseed=rnd.randrange(1 << 30))
+    # large maps on several threads (Barnes-Hut part only): sizes beyond any "small problem" switch in the implementation
+    for N in ([1100, 1600, 2500] if not thorough else [1001, 1100, 1600, 2500, 2500, 4000, 5000]):
+        add(mode="grad", big=1, threads=rnd.choice([4, 8]), data=rnd.choice(["gauss", "clusters"]), N=N, D=rnd.choice([3, 10]),
+            dseed=rnd.randrange(1 << 30), perp=rnd.choice([10, 30]), srand=rnd.randrange(1 << 30), nc=3, gap=6,
+            map=rnd.choice(["unit", "spread", "clustered"]), td=2, mseed=rnd.randrange(1 << 30), timeout=1800)
     ne2e = 60 if thorough else 8
     for i in range(ne2e):
         N = rnd.choice([45, 60, 90]) if not thorough else rnd.choice([45, 60, 90, 150])
